@@ -125,6 +125,56 @@ def run(ctx):
     R_par = ctx.rule("C08.parallel-load-ordered", "parallel loading collects from an indexed parallel iterator into a Vec (input order kept before the stable sort/insert)", floor=2)
 
     fns = [f for f in mpq.fn_list if f.kind != "Closure" and f.file.endswith(FILE) and f.hir]
+
+    # an index found by searching the archive list is used on the list as it was searched: no removal / insertion in between
+    R_stale = ctx.rule("C08.search-index-not-stale", "an index obtained from position()/binary_search/partition_point on the archive list is used (insert/remove/index) before any other mutation of that list", floor=3)
+    MUT = ("remove", "insert", "push", "retain", "sort_by", "sort_by_key", "sort", "swap", "swap_remove", "truncate", "drain", "clear", "extend", "append", "dedup_by_key", "pop")
+    for f in fns:
+        body = hirq.body_of(f)
+        order = {id(n): i for i, n in enumerate(hirq.walk(body))}
+        idx_defs = {}      # local -> (order, list render)
+        for l in hirq.find(body, "let"):
+            if l["pat"].get("k") != "bind" or l.get("init") is None:
+                continue
+            SRCH = ("position", "rposition", "binary_search_by", "binary_search_by_key", "partition_point")
+            srch = [c for c in hirq.walk(l["init"]) if c.get("k") == "mcall" and c["m"] in SRCH]
+            base = None
+            for c in hirq.walk(l["init"]):
+                if c.get("k") == "mcall" and recv_is_archives(mpq, c):
+                    base = hirq.render(hirq.strip(c["recv"]))
+            if not srch:
+                # the search may live in a local helper (`self.insertion_index(priority)`)
+                for c in hirq.calls(l["init"]):
+                    helper = next((g for g in mpq.fn_list if c.get("fn") and g.path == c["fn"] and g.hir and g.file.endswith(FILE)), None)
+                    if helper is not None and any(x.get("k") == "mcall" and x["m"] in SRCH for x in hirq.walk(helper.hir["body"])) and \
+                            any(x.get("k") == "mcall" and recv_is_archives(mpq, x) for x in hirq.walk(helper.hir["body"])):
+                        srch = [c]
+                        base = "self.archives"
+            if not srch:
+                continue
+            if base is None:
+                continue
+            idx_defs[l["pat"]["name"]] = (max(order.get(id(x), 0) for x in hirq.walk(l["init"])), base, l["ln"])
+        if not idx_defs:
+            continue
+        muts = [(order[id(c)], c) for c in hirq.walk(body) if c.get("k") == "mcall" and c["m"] in MUT and recv_is_archives(mpq, c)]
+        for c in hirq.walk(body):
+            uses = []
+            if c.get("k") == "mcall" and c["m"] in ("insert", "remove", "swap_remove", "get", "get_mut", "split_off") and recv_is_archives(mpq, c) and c.get("args"):
+                uses = [x["res"]["local"] for x in hirq.walk(c["args"][0]) if x.get("k") == "path" and x["res"].get("local") in idx_defs]
+            elif c.get("k") == "index" and hirq.render(hirq.strip(c["e"])).endswith("archives"):
+                uses = [x["res"]["local"] for x in hirq.walk(c["i"]) if x.get("k") == "path" and x["res"].get("local") in idx_defs]
+            for nm in uses:
+                d_ord, base, d_ln = idx_defs[nm]
+                u_ord = order[id(c)]
+                between = [m_ for o_, m_ in muts if d_ord < o_ < u_ord and m_ is not c]
+                ctx.saw_fn(f)
+                if between:
+                    ctx.bad(R_stale, "%s|%s|stale-index" % (f.path.split("::")[-1], nm), "%s:%d" % (f.file, c["ln"]), "`%s` was computed at line %d, the list was then changed by `%s` (line %d), and only then is it used in `%s`" % (
+                        nm, d_ln, between[0]["m"], between[0]["ln"], hirq.render(c)[:50]),
+                            "the index refers to the list before the change: the entry lands one slot off, behind an archive of lower priority (or ahead of a higher one) — shared names then resolve to the wrong archive")
+                else:
+                    ctx.ok(R_stale, {"fn": f.path, "index": nm, "used_in": c.get("m") or "index", "line": c["ln"]})
     rebuild_path = "wow_mpq::patch_chain::PatchChain::rebuild_file_map"
 
     mutators = {}
